@@ -1,6 +1,7 @@
 import XProofs.Limits
 import XModel.Opt
 import XModel.OptBest
+import XProofs.OptBest2
 /-!
 # C15 — the optimizer log is truthful: reload reproduces a row, steps never end worse
 -/
@@ -26,7 +27,8 @@ theorem C15_reload_row {R : Type} (c : Cfg R) (i : Nat) (row : Row R) (s : St R)
     ∀ j, s'.knobs j = row.knobs j ∨ s'.knobs j = c.mulW j (c.divW j (row.knobs j)) :=
   reload_frame c i row s r s' hrow h
 
-/-- **`step(take_best=True)` that returns normally** ends either on the point the loop left with every active target
+/-- SUPERSEDED by `C15_take_best_on_the_log` below (here `start`, `rest` and `n` are free: the penalties are not tied to the
+    log).  `step(take_best=True)` that returns normally ends either on the point the loop left with every active target
     within tolerance, or — reloading index `n + argmin pens`, where `pens` are the penalties of the rows logged
     during the call starting at log position `n` — on the knobs and flags of that row (bit for bit, or through the
     weight round trip), whose penalty is minimal among `pens`, in particular not above the start row's -/
@@ -74,5 +76,72 @@ theorem C15_reload_row_unit_weights {R : Type} (c : Cfg R) (i : Nat) (row : Row 
 /-- every operation only appends to the log: rows are never rewritten -/
 theorem C15_log_append_only {R : Type} (c : Cfg R) (its : List (Iter R)) (tb : Option Nat) : LM (optStep c its tb) :=
   LM_optStep c its tb
+
+/-! ### wrappers of the model-level results (statements as printed by `#check`) -/
+section wrapped
+
+/-- **take_best tied to the call's own log**: for ANY assignment of penalties to rows (`pen`, as the real log records one per row), let `rows` be the rows the call appended (the first is the start row) and let the reload index be `n + argmin (rows.map pen)` computed FROM them; a normal return then ends either on the loop's point with every active target within tolerance, or on the flags and knobs (exactly, or through the weight round trip) of a row of the call whose recorded penalty is minimal among the call's rows — in particular not above the start row's -/
+theorem C15_take_best_on_the_log :
+    ∀ {R K : Type} [inst : LinearOrder K] (pen : Opt.Row R → K) (c : Opt.Cfg R)
+      (its : List (Opt.Iter R)) (s sl s' : Opt.St R),
+      Opt.optBody c its s = (Except.ok (), sl) →
+        Opt.optStep c its (some (List.length s.log + Argmin.argmin (List.map pen (List.drop (List.length s.log) sl.log))))
+              s =
+            (Except.ok (), s') →
+          (sl.lastWithin = true ∧ s' = sl ∧ ∃ res, c.f s'.knobs = some res ∧ c.within res s'.tAct = true) ∨
+            sl.lastWithin = false ∧
+              ∃ r ∈ List.drop (List.length s.log) sl.log,
+                (List.drop (List.length s.log)
+                        sl.log)[Argmin.argmin (List.map pen (List.drop (List.length s.log) sl.log))]? =
+                    some r ∧
+                  s'.vAct = r.vAct ∧
+                    s'.tAct = r.tAct ∧
+                      r.vAct = s.vAct ∧
+                        r.tAct = s.tAct ∧
+                          s'.knobs = Opt.roundTrip c r.vAct r.knobs ∧
+                            (∀ (j : ℕ), s'.knobs j = r.knobs j ∨ s'.knobs j = c.mulW j (c.divW j (r.knobs j))) ∧
+                              s'.log = sl.log ++ [r] ∧
+                                (∀ r' ∈ List.drop (List.length s.log) sl.log, pen r ≤ pen r') ∧ pen r ≤ pen (Opt.rowOf s) :=
+  @Opt.optStep_take_best_argmin
+
+/-- with a weight round trip that is the identity (unit weights) the container ends exactly on that row -/
+theorem C15_take_best_exact_unit_weights :
+    ∀ {R K : Type} [inst : LinearOrder K] (pen : Opt.Row R → K) (c : Opt.Cfg R)
+      (its : List (Opt.Iter R)) (s sl s' : Opt.St R),
+      (∀ (j : ℕ) (x : R), c.mulW j (c.divW j x) = x) →
+        Opt.optBody c its s = (Except.ok (), sl) →
+          Opt.optStep c its (some (List.length s.log + Argmin.argmin (List.map pen (List.drop (List.length s.log) sl.log))))
+                s =
+              (Except.ok (), s') →
+            sl.lastWithin = true ∧ s' = sl ∨
+              sl.lastWithin = false ∧
+                ∃ r ∈ List.drop (List.length s.log) sl.log,
+                  Opt.rowOf s' = r ∧
+                    (∀ r' ∈ List.drop (List.length s.log) sl.log, pen r ≤ pen r') ∧ pen r ≤ pen (Opt.rowOf s) :=
+  @Opt.optStep_take_best_argmin_exact
+
+/-- **what a row tells**: every row a `step()` appends, whatever the outcome, is the container and masks of a completed evaluation, or — the start row and reload copies — the knobs read just before an evaluation made at their weight round trip (`Truthful`; the two coincide for unit weights: `addPoint_row_vs_eval`, and differ otherwise: `Opt.BestExample`) -/
+theorem C15_log_rows_are_evaluated_points :
+    ∀ {R : Type} (c : Opt.Cfg R) (its : List (Opt.Iter R)) (tb : Option ℕ) (s s' : Opt.St R)
+      (r : Except Opt.Err Unit),
+      Opt.optStep c its tb s = (r, s') → ∃ suf, s'.log = s.log ++ suf ∧ ∀ row ∈ suf, Opt.Truthful c row :=
+  @Opt.optStep_log_truthful
+
+/-- the index so computed points at a row logged during the call: the hypothesis of C10's theorems is met -/
+theorem C15_take_best_index_in_call :
+    ∀ {R K : Type} [inst : LinearOrder K] (pen : Opt.Row R → K) (c : Opt.Cfg R)
+      (its : List (Opt.Iter R)) (s sl : Opt.St R),
+      Opt.optBody c its s = (Except.ok (), sl) →
+        List.length s.log ≤ List.length s.log + Argmin.argmin (List.map pen (List.drop (List.length s.log) sl.log)) ∧
+          List.length s.log + Argmin.argmin (List.map pen (List.drop (List.length s.log) sl.log)) < List.length sl.log ∧
+            (∃ r,
+                sl.log[List.length s.log + Argmin.argmin (List.map pen (List.drop (List.length s.log) sl.log))]? = some r ∧
+                  r ∈ List.drop (List.length s.log) sl.log ∧ ∀ r' ∈ List.drop (List.length s.log) sl.log, pen r ≤ pen r') ∧
+              ∀ (i : ℕ),
+                some (List.length s.log + Argmin.argmin (List.map pen (List.drop (List.length s.log) sl.log))) = some i →
+                  List.length s.log ≤ i :=
+  @Opt.take_best_argmin_index
+
+end wrapped
 
 end Properties.C15
